@@ -239,6 +239,7 @@ CHECKS = {
         stages=[
             mc("calls-0", "MC_C03.tla", "MC_C03_0.cfg"),
             mc("calls-1", "MC_C03.tla", "MC_C03_1.cfg"),
+            mc("calls-concat", "MC_C03.tla", "MC_C03_concat.cfg"),
             mc("calls-2", "MC_C03.tla", dict(quick=None, thorough="MC_C03_2.cfg")),
             mc("calls-3", "MC_C03.tla", dict(quick=None, thorough="MC_C03_3.cfg")),
             lang("calls", "rich", 4000, 150000, ["--nctx", "6", "--depth", "3", "--callpct", "70"], shards=SH),
